@@ -3,6 +3,7 @@ package rules
 import (
 	"go/token"
 	"go/types"
+	"strings"
 
 	"gldapverif/an"
 
@@ -204,8 +205,8 @@ func checkC06(c *Ctx) {
 				}
 			}
 			args := sc[0].Common().Args
-			wOK := isThisIterationWriter(an.Strip(args[1]), m)
-			rOK := isThisRequest(an.Strip(args[2]), m)
+			wOK := isThisIterationWriter(an.StripX(args[1]), m)
+			rOK := isThisRequest(an.StripX(args[2]), m)
 			R.Check(good && wOK && rOK, "C03-dispatch", fname(t)+": serve(w, r) exactly once", c.pos(sc[0]), "one call on every path with this iteration's writer and the request just read", sprintf("dispatch is not exactly-once with this iteration's (w, r): once=%v w=%v r=%v", good, wOK, rOK))
 		}
 		// the go must not be under the unbind / TLS atoms and must be after a successful read
@@ -267,6 +268,33 @@ func checkC06(c *Ctx) {
 	}
 	R.Trivial("C06-nojoin", "(*conn).serveRequests: no wait edge", c.P.Pos(m.serve.Pos()), sprintf("%d functions in the synchronous read slice scanned for Wait / channel operations / blocking select", len(slice)))
 
+	// ---- C06-nolock-handler: no lock of gldap's own is (possibly) held while a handler runs: a handler that
+	// blocks would otherwise stall every other request that needs the same lock (on this and other connections).
+	nH := 0
+	for _, f := range shipped {
+		var may map[ssa.Instruction]an.LockSet
+		for _, ci := range an.Calls(f) {
+			cc := ci.Common()
+			if !(isHandlerInvoke(cc) || isMuxServe(cc)) {
+				continue
+			}
+			if may == nil {
+				may = an.MayLockSets(f, nil)
+			}
+			nH++
+			held := may[ci]
+			// locks held by a deferred Unlock registered earlier are in the set as well (not released before the call)
+			key := fname(f) + ": no lock held while a handler runs"
+			if len(held) == 0 {
+				R.OK("C06-nolock-handler", key, c.pos(ci), "no mutex can be held at this handler invocation")
+			} else {
+				R.Fail("C06-nolock-handler", key, c.pos(ci), "mutex "+held.String()+" can be held while the handler runs: a handler that blocks delays the dispatch of every other request that needs this lock")
+			}
+		}
+	}
+	R.Count("C06-nolock-handler/sites", nH)
+	R.Floor("C06-nolock-handler", 4)
+
 	// ---- C06-conn-async
 	for _, ci := range callSites(shipped, isStatic(G, "(*conn).serveRequests")) {
 		R.Check(ci == m.serveCall, "C06-conn-async", fname(ci.Parent())+": serveRequests", c.pos(ci), "called only inside the per-connection goroutine started by go in Run", "serveRequests is called outside the per-connection goroutine: the accept loop would serve connections one at a time")
@@ -306,8 +334,8 @@ func (c *Ctx) lockHeldAcrossHandler(st *types.Named, field string) string {
 				sets = an.LockSets(f, nil)
 			}
 			for k := range sets[ci] {
-				// key form "<path>.<field>" possibly with "(r)"
-				if hasSuffixField(k, field) {
+				// key form "<path>.<field>" possibly with "(r)"; the mutex must belong to the same struct type
+				if hasSuffixField(k, field) && lockOwnerType(f, k) == st.Obj().Name() {
 					return c.pos(ci)
 				}
 			}
@@ -350,7 +378,7 @@ func checkC10(c *Ctx) {
 		} else if b, ok := fieldLoad(bo.Y, G, "Request", "routeOp"); ok {
 			base = b
 		}
-		R.Check(base != nil && isThisRequest(an.Strip(base), m), "C10-first", "(*conn).serveRequests: unbind test on the request just read", c.pos(g.If), "r is this iteration's readRequest result", "the unbind test does not look at the request just read")
+		R.Check(base != nil && isThisRequest(an.StripX(base), m), "C10-first", "(*conn).serveRequests: unbind test on the request just read", c.pos(g.If), "r is this iteration's readRequest result", "the unbind test does not look at the request just read")
 	}
 	// ---- C10-first: dispatch sites are on the non-unbind side
 	n := 0
@@ -420,7 +448,7 @@ func checkC10(c *Ctx) {
 			ok = false
 		}
 		args := h.Common().Args
-		if len(args) != 2 || !isThisIterationWriter(an.Strip(args[0]), m) || !isThisRequest(an.Strip(args[1]), m) {
+		if len(args) != 2 || !isThisIterationWriter(an.StripX(args[0]), m) || !isThisRequest(an.StripX(args[1]), m) {
 			ok = false
 		}
 		R.Check(ok, "C10-handler-once", "(*conn).serveRequests: unbind handler once", c.pos(h), "unbindRoute.handler()(w, r) runs exactly once iff an unbind route is registered, synchronously, with this request", "the unbind handler is not invoked exactly once with this request when registered (or is invoked without the nil test / asynchronously)")
@@ -469,7 +497,7 @@ func checkC13(c *Ctx) {
 			ok := isCall(ci) && isMuxServe(cc)
 			if ok {
 				args := cc.Args
-				ok = isThisIterationWriter(an.Strip(args[1]), m) && isThisRequest(an.Strip(args[2]), m)
+				ok = isThisIterationWriter(an.StripX(args[1]), m) && isThisRequest(an.StripX(args[2]), m)
 			}
 			R.Check(ok, "C13-inline", "(*conn).serveRequests: StartTLS served inline", c.pos(ci), "plain synchronous call of router.serve(w, r): the read loop does not read again until the handler has returned", "StartTLS is dispatched asynchronously or not through router.serve(w, r): the next read can race with the handshake")
 		}
@@ -487,7 +515,7 @@ func checkC13(c *Ctx) {
 		} else if b, ok := fieldLoad(bo.Y, G, "Request", "extendedName"); ok {
 			base = b
 		}
-		R.Check(base != nil && isThisRequest(an.Strip(base), m), "C13-inline", "(*conn).serveRequests: StartTLS test on the request just read", c.pos(g.If), "r is this iteration's request", "StartTLS test looks at another request")
+		R.Check(base != nil && isThisRequest(an.StripX(base), m), "C13-inline", "(*conn).serveRequests: StartTLS test on the request just read", c.pos(g.If), "r is this iteration's request", "StartTLS test looks at another request")
 	}
 	// ---- C13-rawhandshake
 	var tlsServer *ssa.Call
@@ -634,4 +662,20 @@ func checkC13(c *Ctx) {
 	R.Floor("C13-no-bypass", 4)
 	R.Assumptions = append(R.Assumptions, "Request.StartTLS is called from the StartTLS handler, which C13-inline shows runs on the read-loop goroutine")
 	R.NotDecided = append(R.NotDecided, "what crypto/tls puts on the wire; handshake outcome for a given client timing")
+}
+
+// lockOwnerType: the struct type owning the mutex named by a lock-set key in f
+// (found by matching the key against the Lock calls of f).
+func lockOwnerType(f *ssa.Function, key string) string {
+	k := strings.TrimSuffix(key, "(r)")
+	for _, ci := range an.Calls(f) {
+		if kind, mu := an.LockOp(ci.Common()); kind != "" && an.MutexPath(mu) == k {
+			if fa, ok := mu.(*ssa.FieldAddr); ok {
+				if nt := an.StructOf(fa.X.Type()); nt != nil {
+					return nt.Obj().Name()
+				}
+			}
+		}
+	}
+	return ""
 }
